@@ -175,12 +175,23 @@ def eval_point(pt, R):
         if p <= 3 or p == N // 2:
             R.calls()
             try:
-                o = (spectrum.pcovar if meth == 'covariance' else spectrum.pmodcovar)(x, p)
+                o = (spectrum.pcovar if meth == 'covariance' else spectrum.pmodcovar)(x, p, NFFT=(None if p % 2 else N + 3))       # the grid must not enter the model
                 o()
                 R.check(close(np.asarray(o.ar), aref, tol, 1e-10 * u), 'class', dict(feats, cls=meth), ptm, o.ar, aref, 'class .ar != least-squares coefficients')
                 if getattr(o, 'rho', None) is not None:
                     per = emin / (N - p) if meth == 'covariance' else emin / (2.0 * (N - p))
                     R.check(abs(o.rho - per) <= tol * max(energy, 1e-300) / (N - p), 'class', dict(feats, cls=meth, attr='rho'), ptm, o.rho, per,
                             'class .rho != minimum prediction-error energy per sample')
+                if p <= 2 and N >= 8 and not single:
+                    # history: evaluate, assign another record of the same length (same order), evaluate again
+                    x2 = A.prom(x)[::-1].copy() * (1.5 if not cplx else 1.5j)
+                    a2ref, e2min, c2, _X2 = rar.ls_ar(x2, p, meth)
+                    if np.isfinite(c2) and c2 <= 1e8:
+                        R.calls(2)
+                        o.data = x2
+                        o()
+                        per2 = e2min / (N - p) if meth == 'covariance' else e2min / (2.0 * (N - p))
+                        R.check(close(np.asarray(o.ar), a2ref, 1e-9 * max(c2, 1.0), 1e-10) and (getattr(o, 'rho', None) is None or abs(o.rho - per2) <= 1e-9 * max(c2, 1.0) * max(per2, 1e-300) + 1e-12 * energy / N),
+                                'class', dict(feats, cls=meth, history='new data'), ptm, o.ar, a2ref, 'after assigning a new record to the object, .ar / .rho are not the least-squares fit of that record')
             except Exception as ex:
                 R.viol('class', dict(feats, cls=meth, exc=type(ex).__name__), ptm, repr(ex), aref, 'class raised')
